@@ -249,7 +249,14 @@ fn damage_at_rest(body: &mut Vec<u8>, rng: &mut Rng) {
     if body.is_empty() {
         return;
     }
-    match rng.below(4) {
+    match rng.below(5) {
+        4 => {
+            // a byte that is not UTF-8 on its own, preferably inside a string value (documents
+            // carry strings under keys the decoder ignores as well as under keys it reads)
+            let letters: Vec<usize> = (0..body.len()).filter(|&i| body[i].is_ascii_alphabetic()).collect();
+            let i = if letters.is_empty() { rng.below_usize(body.len()) } else { *rng.pick(&letters[..]) };
+            body[i] = *rng.pick(&[0xffu8, 0xc3, 0x80, 0xfe, 0xed]);
+        }
         0 => {
             let k = rng.below_usize(body.len() + 1);
             body.truncate(k);
